@@ -197,10 +197,24 @@ def lean_audit(prop: str, timeout=1800, suffix=""):
 def lean_sources(prop: str):
     """Lean files whose text belongs to this property (grepped for forbidden constructs)."""
     files = []
-    for sub in ("Model", "Proofs", "Generated", "ProofsGen", "Basic"):
+    for sub in ("Model", "Proofs", "Lemmas", "Generated", "ProofsGen", "Basic"):
         d = LEAN_DIR / "RpylibModel" / sub
         if d.exists():
             files += sorted(d.rglob("*.lean"))
+    # files that git does not track yet are somebody's work in progress (several builders share this directory): the textual
+    # scan leaves them out — what they prove is not counted either, because a theorem only counts through `#print axioms` in
+    # an audit file, where `sorryAx` would show.  In a snapshot of the committed tree every file is tracked.
+    try:
+        r = subprocess.run(["git", "ls-files", "--error-unmatch", "--"] + [str(f) for f in files], cwd=LEAN_DIR,
+                           capture_output=True, text=True, timeout=60)
+        if r.returncode != 0:
+            r2 = subprocess.run(["git", "ls-files", "--"] + [str(f.relative_to(LEAN_DIR)) for f in files], cwd=LEAN_DIR,
+                                capture_output=True, text=True, timeout=60)
+            if r2.returncode == 0 and r2.stdout.strip():
+                tracked = {(LEAN_DIR / l).resolve() for l in r2.stdout.split("\n") if l}
+                files = [f for f in files if f.resolve() in tracked]
+    except Exception:
+        pass
     return files
 
 
